@@ -248,13 +248,18 @@ let cyclic = Cc::new_cyclic(|weak| {
             panic!("Cannot create a new Cc while tracing!");
         }
 
-        let cc = Cc::new(NewCyclicWrapper::new());
-
-        // Immediately call inner_ptr and forget the Cc instance. Having a Cc instance is dangerous, since:
+        // Don't use Cc::new here. Cc::new may start a collection, which may panic: a NewCyclicWrapper (whose contents are
+        // uninitialized at this point) or a Cc to it must never be alive when that happens, otherwise unwinding would drop
+        // uninitialized memory. Also, having a Cc instance is dangerous, since:
         // 1. The strong count will become 0
         // 2. The Cc::drop implementation might be accidentally called during an unwinding
-        let invalid_cc: NonNull<CcBox<_>> = cc.inner_ptr();
-        mem::forget(cc);
+        let invalid_cc: NonNull<CcBox<NewCyclicWrapper<T>>> = crate::state::state(|state| {
+            #[cfg(feature = "auto-collect")]
+            crate::trigger_collection(state);
+
+            // The wrapper is created only now, there's nothing that can panic from here to the end of this closure
+            CcBox::new(NewCyclicWrapper::new(), state)
+        });
 
         let metadata: NonNull<BoxedMetadata> = unsafe { invalid_cc.as_ref() }.get_or_init_metadata();
 
